@@ -295,12 +295,25 @@ def feedback(f=None, *, key: Optional[str] = None) -> Callable:
     return f
 
 
+class _RawTopic:
+    """RawTopic needs an explicit type string for getEntry() and publish()."""
+
+    def __init__(self, topic: ntcore.Topic) -> None:
+        self._topic = ntcore.RawTopic(topic)
+
+    def getEntry(self, default: bytes):
+        return self._topic.getEntry("raw", default)
+
+    def publish(self):
+        return self._topic.publish("raw")
+
+
 _topic_types = {
     bool: ntcore.BooleanTopic,
     int: ntcore.IntegerTopic,
     float: ntcore.DoubleTopic,
     str: ntcore.StringTopic,
-    bytes: ntcore.RawTopic,
+    bytes: _RawTopic,
 }
 _array_topic_types = {
     bool: ntcore.BooleanArrayTopic,
